@@ -110,12 +110,14 @@ impl Future for StatusFuture {
     self: std::pin::Pin<&mut Self>,
     cx: &mut std::task::Context<'_>,
   ) -> Poll<Self::Output> {
+    // register the waker before looking at the flag: a terminal that arrives
+    // between a check and a later registration would never wake the waiter.
+    self.0.waker.register(cx.waker());
+    #[cfg(feature = "verif_hooks")]
+    crate::verif_hooks::point("status_window", Arc::as_ptr(&self.0) as *const () as usize, &mut || true);
     if self.0.is_closed() {
       Poll::Ready(NormalReturn::new(()))
     } else {
-      #[cfg(feature = "verif_hooks")]
-      crate::verif_hooks::point("status_window", Arc::as_ptr(&self.0) as *const () as usize, &mut || true);
-      self.0.waker.register(cx.waker());
       Poll::Pending
     }
   }
